@@ -613,7 +613,7 @@ void HistSim::collectLinkedBuffers() {
     });
   size_t n = arena_.collect(live);
   if (n)
-    count("probe.linked_buffers_released", n);
+    count("fault.linked_buffer_released", n);
 }
 
 void HistSim::checkAll(const Op& op, size_t ix, bool relaxedDoc, int relaxedIdx) {
